@@ -17,6 +17,8 @@
 import NiftyVerif.Lemmas.Hmc
 import NiftyVerif.Lemmas.HmcSlots
 import NiftyVerif.Lemmas.HmcVolume
+import NiftyVerif.Lemmas.HmcProgressive
+import NiftyVerif.Lemmas.HmcChain
 import Mathlib.MeasureTheory.Measure.Lebesgue.Basic
 
 namespace NiftyVerif.C32
@@ -201,6 +203,31 @@ theorem progressive_sampling_step (W w wi : ℝ) :
   ring
 
 end weights
+
+/-! ## progressive sampling over a whole sub-tree -/
+
+/-- **progressive_sampling_multinomial**: offering the leaves of a sub-tree one by one with keep-probability
+    `expit(W − w)` (`add_single_qp_to_tree`) makes leaf `i` the candidate with probability `e^{w_i}/Σ_j e^{w_j}`, and the
+    accumulated log-weight is `log Σ_j e^{w_j}` — for every number of leaves and every weights -/
+theorem progressive_sampling_multinomial (w0 : ℝ) (ws : List ℝ) :
+    Real.exp (progressive w0 ws).W = ((w0 :: ws).map Real.exp).sum
+    ∧ (progressive w0 ws).probs = (w0 :: ws).map (fun wi => Real.exp wi / ((w0 :: ws).map Real.exp).sum) :=
+  progressive_multinomial w0 ws
+
+/-- **merge_multinomial** (`bias_transition=False`): merging two multinomially sampled sub-trees keeps the candidate
+    multinomial over the union -/
+theorem merge_multinomial (Wa Wb wi wj : ℝ) :
+    (Real.exp wi / Real.exp Wa) * (1 - 1 / (1 + Real.exp (-(Wb - Wa)))) = Real.exp wi / Real.exp (lae Wa Wb)
+    ∧ (Real.exp wj / Real.exp Wb) * (1 / (1 + Real.exp (-(Wb - Wa)))) = Real.exp wj / Real.exp (lae Wa Wb) :=
+  merge_unbiased_multinomial Wa Wb wi wj
+
+/-! ## chain statistics -/
+
+/-- **chain_acceptance_is_mean**: the running update `a ← a + (x − a)/(idx+1)` of `update_chain` (HMC: accepted flags,
+    NUTS: per-tree acceptance) ends at the arithmetic mean of the per-sample values, for every chain length -/
+theorem chain_acceptance_is_mean {K : Type} [Field K] [CharZero K] (xs : List K) (h : xs ≠ []) :
+    accRun xs 0 0 = xs.sum / xs.length :=
+  Hmc.chain_acceptance_is_mean xs h
 
 /-! ## NUTS slot bookkeeping -/
 
